@@ -65,6 +65,8 @@ def run_property(prop, tier='quick', only=None, jobs=None, keep=False, seed=0):
             tasks.append((u, v, None))
             if tier == 'thorough':
                 for i, e in enumerate(u.planted):
+                    if len(e) > 3 and not re.search(e[3], v):     # optional 4th field: the variants whose path the planted break lies on
+                        continue
                     tasks.append((u, v, e))
     jobs = jobs or int(os.environ.get('VERIF_JOBS', '8'))
     results = []
